@@ -143,6 +143,10 @@ def run_impl(case):
             tfs = [TRANSFORMS[t] for t in case['transforms']] if si == nst - 1 else \
                 [TRANSFORMS[t] for t in (case.get('ptransforms') or [[]] * nst)[si]]
             cur = DaskLazyIndexer(cur, kp, tfs)
+            if case['mutate']:
+                # the caller goes on using its own list (building the chain of the next indexer, say): the indexer was
+                # given the chain as it stood at construction
+                tfs.append(lambda a: a * 0 - 5)
         if case['mutate']:
             for kp in keeps:
                 for obj in kp:
